@@ -105,3 +105,154 @@ def _(self, cfg, input_step):
     # C12: the band suffix is taken from the step name ('' for the plain key, '.xxx' for 'cost_volume_confidence.xxx')
     ensures("C12.indicator", last_store("['indicator']") == repr("." + input_step.split(".")[1] if len(input_step.split(".")) == 2 else ""))
     ensures("C12.indicator_before_use", called_before("AbstractCostVolumeConfidence", "confidence_prediction"))
+
+
+# ------------------------------------------------------------------------------------------------ preparation
+@contract("pandora.state_machine.PandoraMachine.run_prepare", props=["C08"])
+def _(self, cfg, left_img, right_img, scale_factor, num_scales):
+    # C08.init: when the right interval is not given it is the mirrored left one (-max, -min), single scale or pyramid;
+    # both output datasets start empty
+    types(cfg="opaque", left_img="opaque", right_img="opaque", scale_factor="opaque", num_scales="opaque")
+    option(glue=True)
+    raises_never()
+    ensures("C08.init.right_min", implies(branch("in right_img.data_vars") is not True,
+                                           last_store("self.right_disp_min") == "(-" + last_store("self.disp_max") + ")"
+                                           or last_store("self.right_disp_min") == "(-self.disp_max)"))
+    ensures("C08.init.right_max", implies(branch("in right_img.data_vars") is not True,
+                                           last_store("self.right_disp_max") == "(-" + last_store("self.disp_min") + ")"
+                                           or last_store("self.right_disp_max") == "(-self.disp_min)"))
+    ensures("C08.init.empty_outputs", stored_at("self.left_disparity") and stored_at("self.right_disparity"))
+    ensures("images", stored_at("self.left_img") and stored_at("self.right_img"))
+
+
+# ------------------------------------------------------------------------------------------------ checking callbacks
+# C05: each callback stores the completed step configuration under the step's own key; the matching-cost band is
+# checked against BOTH images.  C20: cumulative / non-cumulative registration under the step's full name.
+
+@contract("pandora.state_machine.PandoraMachine.matching_cost_check_conf", props=["C05", "C20"])
+def _(self, cfg, input_step):
+    types(cfg="opaque", input_step="opaque")
+    option(glue=True)
+    ensures("C05.store", stored_at("self.pipeline_cfg['pipeline'][input_step]"))
+    ensures("C05.band.left", ncalls("check_band_pipeline") == 2 and call_mentions("check_band_pipeline", 0, "self.left_img.coords['band_im']"))
+    ensures("C05.band.right", call_mentions("check_band_pipeline", 1, "self.right_img.coords['band_im']"))
+    ensures("C05.band.args", call_mentions("check_band_pipeline", 0, "cfg[input_step]['matching_cost_method']")
+            and call_mentions("check_band_pipeline", 1, "cfg[input_step]['matching_cost_method']")
+            and call_mentions("check_band_pipeline", 0, ".cfg['band']") and call_mentions("check_band_pipeline", 1, ".cfg['band']"))
+    ensures("C20.cumulative", ncalls("add_cumulative") == 1 and ncalls("add_non_cumulative") == 0
+            and call_mentions("add_cumulative", 0, "(input_step, <AbstractMatchingCost"))
+
+
+@contract("pandora.state_machine.PandoraMachine.disparity_check_conf", props=["C05", "C20"])
+def _(self, cfg, input_step):
+    types(cfg="opaque", input_step="opaque")
+    option(glue=True)
+    ensures("C05.store", stored_at("self.pipeline_cfg['pipeline'][input_step]"))
+    ensures("C20.cumulative", ncalls("add_cumulative") == 1 and ncalls("add_non_cumulative") == 0
+            and call_mentions("add_cumulative", 0, "(input_step, <AbstractDisparity"))
+
+
+@contract("pandora.state_machine.PandoraMachine.refinement_check_conf", props=["C05", "C20"])
+def _(self, cfg, input_step):
+    types(cfg="opaque", input_step="opaque")
+    option(glue=True)
+    ensures("C05.store", stored_at("self.pipeline_cfg['pipeline'][input_step]"))
+    ensures("C20.cumulative", ncalls("add_cumulative") == 1 and ncalls("add_non_cumulative") == 0
+            and call_mentions("add_cumulative", 0, "(input_step, <AbstractRefinement"))
+
+
+@contract("pandora.state_machine.PandoraMachine.aggregation_check_conf", props=["C05", "C20"])
+def _(self, cfg, input_step):
+    types(cfg="opaque", input_step="opaque")
+    option(glue=True)
+    ensures("C05.store", stored_at("self.pipeline_cfg['pipeline'][input_step]"))
+    ensures("C20.cumulative", ncalls("add_cumulative") == 1 and ncalls("add_non_cumulative") == 0
+            and call_mentions("add_cumulative", 0, "(input_step, <AbstractAggregation"))
+
+
+@contract("pandora.state_machine.PandoraMachine.filter_check_conf", props=["C05", "C20"])
+def _(self, cfg, input_step):
+    types(cfg="opaque", input_step="opaque")
+    option(glue=True)
+    ensures("C05.store", stored_at("self.pipeline_cfg['pipeline'][input_step]"))
+    ensures("C05.user_cfg_not_mutated", call_mentions("AbstractFilter", 0, "cfg=deepcopy(cfg[input_step])")
+            or call_mentions("AbstractFilter", 0, "cfg=copy.deepcopy(cfg[input_step])"))
+    ensures("C20.non_cumulative", ncalls("add_non_cumulative") == 1 and ncalls("add_cumulative") == 0
+            and call_mentions("add_non_cumulative", 0, "(input_step, <AbstractFilter"))
+    ensures("C20.step", call_mentions("AbstractFilter", 0, "step=self.step"))
+
+
+@contract("pandora.state_machine.PandoraMachine.optimization_check_conf", props=["C05", "C20"])
+def _(self, cfg, input_step):
+    types(cfg="opaque", input_step="opaque")
+    option(glue=True)
+    may_raise(AttributeError)
+    ensures("C05.store", stored_at("self.pipeline_cfg['pipeline'][input_step]"))
+    ensures("C20.cumulative", ncalls("add_cumulative") == 1 and ncalls("add_non_cumulative") == 0
+            and call_mentions("add_cumulative", 0, "(input_step, <AbstractOptimization"))
+
+
+@contract("pandora.state_machine.PandoraMachine.validation_check_conf", props=["C05", "C20"])
+def _(self, cfg, input_step):
+    types(cfg="opaque", input_step="opaque")
+    option(glue=True)
+    may_raise(AttributeError)
+    ensures("C05.store", stored_at("self.pipeline_cfg['pipeline'][input_step]"))
+    ensures("right_products_enabled", stored_at("self.right_disp_map"))
+    ensures("C20.no_margin", ncalls("add_cumulative") == 0 and ncalls("add_non_cumulative") == 0)
+
+
+@contract("pandora.state_machine.PandoraMachine.multiscale_check_conf", props=["C05", "C20"])
+def _(self, cfg, input_step):
+    types(cfg="opaque", input_step="opaque")
+    option(glue=True)
+    ensures("C05.store", stored_at("self.pipeline_cfg['pipeline'][input_step]"))
+    ensures("C20.no_margin", ncalls("add_cumulative") == 0 and ncalls("add_non_cumulative") == 0)
+
+
+@contract("pandora.state_machine.PandoraMachine.cost_volume_confidence_check_conf", props=["C05", "C20"])
+def _(self, cfg, input_step):
+    types(cfg="opaque", input_step="opaque")
+    option(glue=True)
+    ensures("C05.store", stored_at("self.pipeline_cfg['pipeline'][input_step]"))
+    ensures("C20.no_margin", ncalls("add_cumulative") == 0 and ncalls("add_non_cumulative") == 0)
+
+
+# ------------------------------------------------------------------------------------------------ transition tables (C01)
+# the documented automaton (property C01 / docs/source/userguide/sequencing.rst)
+DELTA = {
+    "matching_cost": ("begin", "cost_volume"),
+    "aggregation": ("cost_volume", "cost_volume"),
+    "optimization": ("cost_volume", "cost_volume"),
+    "semantic_segmentation": ("cost_volume", "cost_volume"),
+    "cost_volume_confidence": ("cost_volume", "cost_volume"),
+    "disparity": ("cost_volume", "disp_map"),
+    "filter": ("disp_map", "disp_map"),
+    "refinement": ("disp_map", "disp_map"),
+    "validation": ("disp_map", "disp_map"),
+    "multiscale": ("disp_map", "disp_map"),
+}
+
+
+@tables("pandora.state_machine.PandoraMachine", props=["C01"])
+def _():
+    ensures("check.one_row_per_kind", sorted(t["trigger"] for t in _transitions_check) == sorted("check_" + k for k in DELTA))
+    ensures("check.source_dest", all((t["source"], t["dest"]) == DELTA[t["trigger"][len("check_"):]] for t in _transitions_check))
+    ensures("check.callback", all(t["after"] == t["trigger"][len("check_"):] + "_check_conf" and t["after"] in methods
+                                  for t in _transitions_check))
+    ensures("check.no_extra_keys", all(sorted(t) == ["after", "dest", "source", "trigger"] for t in _transitions_check))
+    ensures("run.one_row_per_kind", sorted(t["trigger"] for t in _transitions_run) == sorted(DELTA))
+    ensures("run.source", all(t["source"] == DELTA[t["trigger"]][0] for t in _transitions_run))
+    # the one documented difference: multiscale goes back to 'begin' (next scale) under the condition is_not_last_scale
+    ensures("run.dest", all(t["dest"] == ("begin" if t["trigger"] == "multiscale" else DELTA[t["trigger"]][1]) for t in _transitions_run))
+    ensures("run.callback", all(t["after"] == ("run_multiscale" if t["trigger"] == "multiscale" else t["trigger"] + "_run")
+                                and t["after"] in methods for t in _transitions_run))
+    ensures("run.conditions", all(("conditions" in t) == (t["trigger"] == "multiscale") for t in _transitions_run)
+            and all(t.get("conditions", "is_not_last_scale") == "is_not_last_scale" for t in _transitions_run)
+            and "is_not_last_scale" in methods)
+    ensures("run.prepare", all(("prepare" in t) == (t["trigger"] == "matching_cost") for t in _transitions_run)
+            and all(t.get("prepare", "matching_cost_prepare") == "matching_cost_prepare" for t in _transitions_run))
+    ensures("run.no_extra_keys", all(set(t) <= {"trigger", "source", "dest", "after", "prepare", "conditions"} for t in _transitions_run))
+    ensures("mirror", all(any(c["trigger"] == "check_" + r["trigger"] and c["source"] == r["source"]
+                              and (c["dest"] == r["dest"] or r["trigger"] == "multiscale") for c in _transitions_check)
+                          for r in _transitions_run))
